@@ -237,6 +237,10 @@ def run(ctx):
     scope.rule_pairing(ctx, "R2.2")
     scope.rule_push_target_scope(ctx, "R2.3")
     scope.rule_join_current_scope(ctx, "R2.4")
+    scope.rule_memo_scope_free(ctx, "R2.4m")
+    # R2.5a: "the base URI in effect" is established by the draft's own id key and by nothing else
+    from . import tables
+    tables.rule_id_key(ctx, "R2.5a")
     # R2.5: the JSON-Pointer half of "the designated schema": the decoding pipeline rules of C14
     from . import c14
     c14.run_rules(ctx)
